@@ -327,7 +327,17 @@ func operandCheck(c operandCase) {
 	}
 	K := len(raw)
 	script := assembleOperands(c.m, raw, c.n)
-	valid := validParams(c.m.val, c.n.val, K)
+	// The property does not fix the byte order of the key-count operand, and the tree reads it as a
+	// big-endian unsigned number (the threshold as a VM integer): a data-push operand is the count K
+	// if it is K under either reading.  An operand that is K under neither is an invalid key count.
+	nval := c.n.val
+	nIsK := nval.Cmp(big.NewInt(int64(K))) == 0
+	if !nIsK && c.n.data != nil && new(big.Int).SetBytes(c.n.data).Cmp(big.NewInt(int64(K))) == 0 {
+		nIsK = true
+		nval = big.NewInt(int64(K))
+		r.Count("operand_n_is_key_count_only_as_big_endian_unsigned")
+	}
+	valid := validParams(c.m.val, nval, K)
 	wit := func() map[string]interface{} {
 		w := map[string]interface{}{
 			"family": c.fam, "keys_in_script": K,
@@ -395,7 +405,7 @@ func operandCheck(c operandCase) {
 			if !validParams(c.m.val, big.NewInt(int64(K)), K) {
 				r.Count("operand_invalid_m_rejected")
 			}
-			if c.n.val.Cmp(big.NewInt(int64(K))) != 0 || K < 2 || K > constants.MULTI_SIG_MAX_PUBKEY_SIZE {
+			if !nIsK || K < 2 || K > constants.MULTI_SIG_MAX_PUBKEY_SIZE {
 				r.Count("operand_invalid_n_rejected")
 			}
 		case c.m.canonical() && c.n.canonical():
@@ -415,7 +425,7 @@ func operandCheck(c operandCase) {
 			bad = append(bad, "m")
 			how = append(how, "m-reported="+reading(c.m, int64(info.M))+":"+formFamily(c.m))
 		}
-		if c.n.val.Cmp(big.NewInt(int64(K))) != 0 {
+		if !nIsK {
 			bad = append(bad, "n")
 			how = append(how, "n-reported="+reading(c.n, int64(len(info.PubKeys)))+":"+formFamily(c.n))
 		}
